@@ -380,6 +380,10 @@ fn presentations(r: &mut Rng, is_f32: bool, all: bool) -> Vec<Presentation> {
             }
         }
     }
+    // hint-driven presentation (serde's flatten buffer, property-lookup formats)
+    for keys in [KeyForm::Str, KeyForm::Owned, KeyForm::Borrowed] {
+        v.push(Presentation { shape: Shape::MapByHint, order: Order::Written, keys, f32_as_f64: false, human_readable: true });
+    }
     // binary formats (is_human_readable() = false): positional (bincode, postcard) or with named fields (CBOR, MessagePack)
     v.push(Presentation { shape: Shape::Seq, order: Order::Written, keys: KeyForm::Str, f32_as_f64: false, human_readable: false });
     for order in [Order::Written, Order::Permuted(r.next())] {
@@ -392,7 +396,8 @@ fn presentations(r: &mut Rng, is_f32: bool, all: bool) -> Vec<Presentation> {
     }
     // quick tier: both sequence forms, the written order, and two seeded picks of the rest
     let bin_seq = v.iter().position(|p| !p.human_readable && p.shape == Shape::Seq).unwrap();
-    let mut pick = vec![v[0], v[1 + r.below(3)], v[bin_seq]];
+    let by_hint = v.iter().position(|p| p.shape == Shape::MapByHint).unwrap();
+    let mut pick = vec![v[0], v[1 + r.below(3)], v[bin_seq], v[by_hint + r.below(3)]];
     for _ in 0..2 {
         pick.push(v[r.below(v.len())]);
     }
@@ -483,7 +488,7 @@ fn op_tag(op: &Op) -> u64 {
     match op {
         Op::Ser(_, hr) => 1 + *hr as u64,
         Op::De(p, _) => {
-            10 + match p.shape { Shape::Map => 0, Shape::Seq => 1 } + 2 * match p.order { Order::Written => 0, Order::Reversed => 1, Order::Sorted => 2, Order::Permuted(_) => 3 }
+            10 + match p.shape { Shape::Map => 0, Shape::Seq => 1, Shape::MapByHint => 128 } + 2 * match p.order { Order::Written => 0, Order::Reversed => 1, Order::Sorted => 2, Order::Permuted(_) => 3 }
                 + 8 * match p.keys { KeyForm::Str => 0, KeyForm::Owned => 1, KeyForm::Borrowed => 2 } + 32 * p.f32_as_f64 as u64 + 64 * p.human_readable as u64
         }
         Op::Json(p) => 100 + *p as u64,
@@ -922,8 +927,8 @@ fn main() {
     let wall = t0.elapsed().as_secs_f64();
     let rule = "one case = (type, seeded value, operation with presentation and fault plan) executed against the real derived Serialize/Deserialize code; \
 for every value: the fault-free serialization (J1), EVERY single-fault position on the way out (reject-once and reject-from at each serializer call), every presentation of the recorded output \
-fault-free (sequence form; map form in written / reversed / key-sorted / two seeded per-struct permutations x transient / owned / borrowed keys; f32 parts also as f64; each as a format answering is_human_readable() true and, for the binary-format shapes, false), EVERY single-fault position on the way in \
-under the swept presentations (quick: 5 per value; thorough: all), seeded multi-fault plans, and the serde_json tier (5 round-trip paths, writer failing at its k-th write, output truncated to k bytes). \
+fault-free (sequence form; map form restricted to and ordered by the `fields` hint of deserialize_struct; map form in written / reversed / key-sorted / two seeded per-struct permutations x transient / owned / borrowed keys; f32 parts also as f64; each as a format answering is_human_readable() true and, for the binary-format shapes, false), EVERY single-fault position on the way in \
+under the swept presentations (quick: 6 per value; thorough: all), seeded multi-fault plans, and the serde_json tier (5 round-trip paths, writer failing at its k-th write, output truncated to k bytes). \
 The thorough tier adds EVERY pair of rejected serializer calls for histories of at most 30 calls. distinct_nontrivial = number of distinct histories (type, operation, presentation, per-call kind/name/verdict, return) among cases in which at least one injected fault actually fired";
     let ev = serde_json::json!({
         "property_id": "C16",
